@@ -31,7 +31,7 @@ TREE_ROW = re.compile(r"^\[([A-Z-]*) \|\s*(\S+) \|\s*(\S+) \|\s*(\S+)\] (.*)$")
 def cli(mod, args, cwd):
     env = dict(os.environ, PYTHONPATH=core.repo_path())
     env.pop("CBI_VERIF", None)
-    r = subprocess.run([sys.executable, "-m", mod] + args, cwd=cwd, env=env, capture_output=True, text=True, timeout=180)
+    r = core.run_impl([sys.executable, "-m", mod] + args, 180, cwd=cwd, env=env, capture_output=True, text=True)
     return r.returncode, r.stdout, r.stderr
 
 
@@ -129,6 +129,7 @@ def replay_chunk(args):
     fails = []
     stats = {"evals": 0, "nontrivial": 0, "skipped": 0}
     for si, sc in enumerate(scens):
+        core.tick(sc, 900)
         if not scen.well_formed(sc) or any(r["warns"] for r in sc["res"]) or \
                 "argv.forced_name_beside_main" in scen.features(sc):
             stats["skipped"] += 1
